@@ -24,38 +24,45 @@ Proof.
 Qed.
 
 (* parsing an unmasked final data frame with a short or 16-bit length *)
-Lemma parse_unmasked : forall op P, (op = 1 \/ op = 2) -> 0 < zlen P < 65536 ->
+Lemma parse_unmasked_rest : forall op P rest, (op = 1 \/ op = 2) -> 0 < zlen P < 65536 ->
   parse_frame (Z.lor 128 (Z.land op 15) ::
-               (if zlen P <=? 125 then [zlen P mod 256] else 126 :: be_bytes 2 (zlen P mod 65536)) ++ P) =
-  Some (mkFrame true op false mask0 P, []).
+               (if zlen P <=? 125 then [zlen P mod 256] else 126 :: be_bytes 2 (zlen P mod 65536)) ++ P ++ rest) =
+  Some (mkFrame true op false mask0 P, rest).
 Proof.
-  intros op P Hop HL. set (L := zlen P) in *.
+  intros op P rest Hop HL. set (L := zlen P) in *. pose proof (zlen_nonneg _ rest) as Hr0.
   assert (Z.lor 128 (Z.land op 15) = 128 + op) as Eb0 by (destruct Hop; subst; reflexivity).
   rewrite Eb0.
   assert (byte_ok (128 + op) = true /\ (Z.land (128 + op) 112 =? 0) = true /\ (Z.land (128 + op) 128 =? 0) = false /\
           Z.land (128 + op) 15 = op) as (A1 & A2 & A3 & A4) by (destruct Hop; subst; repeat split; reflexivity).
+  assert (zlen (P ++ rest) = L + zlen rest) as Hpl by (rewrite zlen_app; reflexivity).
+  assert (firstn (Z.to_nat L) (P ++ rest) = P /\ skipn (Z.to_nat L) (P ++ rest) = rest) as [Hf Hs]
+    by (split; [apply firstn_app_exact_z|apply skipn_app_exact_z]).
   destruct (L <=? 125) eqn:E.
   - apply Z.leb_le in E. rewrite Z.mod_small by lia. destruct (lbu_facts L ltac:(lia)) as (B1 & B2 & B3).
     cbn [app]. unfold parse_frame. unfold bytes_ok. cbn [forallb]. rewrite A1, B3. cbn [andb negb].
     rewrite A2, A3, A4, B2, B1. cbn [negb].
     destruct (L =? 126) eqn:E1; [lia|]. destruct (L =? 127) eqn:E2; [lia|].
     change (0 =? 0) with true. cbv iota. cbn [Z.to_nat firstn skipn].
-    destruct (zlen P <? 0) eqn:E3; [lia|]. cbn [andb orb]. change (0 =? 2) with false. change (0 =? 8) with false. cbn [andb orb].
-    fold L. destruct (L <? L) eqn:E4; [lia|].
-    rewrite firstn_all_z by (fold L; lia). rewrite skipn_all_z by (fold L; lia). reflexivity.
+    rewrite Hpl. destruct (L + zlen rest <? 0) eqn:E3; [lia|]. cbn [andb orb]. change (0 =? 2) with false. change (0 =? 8) with false. cbn [andb orb].
+    destruct (L + zlen rest <? L) eqn:E4; [lia|]. rewrite Hf, Hs. reflexivity.
   - apply Z.leb_gt in E. rewrite Z.mod_small by lia.
     assert (be_bytes 2 L = [L / 256 mod 256; L mod 256]) as Eb by reflexivity. rewrite Eb.
     cbn [app]. unfold parse_frame. unfold bytes_ok. cbn [forallb]. rewrite A1. change (byte_ok 126) with true. cbn [andb negb].
     rewrite A2, A3, A4. change (Z.land 126 128 =? 0) with true. change (Z.land 126 127) with 126. cbn [negb].
     change (126 =? 126) with true. cbv iota.
-    assert (zlen (L / 256 mod 256 :: L mod 256 :: P) = 2 + L) as El by (rewrite !zlen_cons; fold L; lia).
-    rewrite El. destruct (2 + L <? 2) eqn:E3; [lia|].
+    assert (zlen (L / 256 mod 256 :: L mod 256 :: P ++ rest) = 2 + L + zlen rest) as El by (rewrite !zlen_cons, Hpl; lia).
+    rewrite El. destruct (2 + L + zlen rest <? 2) eqn:E3; [lia|].
     change (2 =? 0) with false. cbv iota. change (Z.to_nat 2) with 2%nat. cbn [firstn skipn].
     pose proof (be_val_2 L ltac:(lia)) as Hv. rewrite Eb in Hv. rewrite Hv.
     change (2 =? 2) with true. change (2 =? 8) with false. destruct (L <? 126) eqn:E4; [lia|]. cbn [andb orb].
-    fold L. destruct (L <? L) eqn:E5; [lia|].
-    rewrite firstn_all_z by (fold L; lia). rewrite skipn_all_z by (fold L; lia). reflexivity.
+    rewrite Hpl. destruct (L + zlen rest <? L) eqn:E5; [lia|]. rewrite Hf, Hs. reflexivity.
 Qed.
+
+Lemma parse_unmasked : forall op P, (op = 1 \/ op = 2) -> 0 < zlen P < 65536 ->
+  parse_frame (Z.lor 128 (Z.land op 15) ::
+               (if zlen P <=? 125 then [zlen P mod 256] else 126 :: be_bytes 2 (zlen P mod 65536)) ++ P) =
+  Some (mkFrame true op false mask0 P, []).
+Proof. intros op P Hop HL. pose proof (parse_unmasked_rest op P [] Hop HL) as H. rewrite app_nil_r in H. exact H. Qed.
 
 Definition enc_frame_ok (b64 : bool) (src out : list Z) : Prop :=
   exists f, parse_stream out = Some [f] /\ f_fin f = true /\ f_masked f = false /\
@@ -189,4 +196,82 @@ Proof.
   - unfold ws_write. apply ws_write_go_chunks; [assumption|lia].
   - apply chunks_concat.
   - apply chunks_sizes. lia.
+Qed.
+
+(* ---------------- composite: what rfbWriteExact puts on the wire parses back to the data ---------------- *)
+Definition out_payload (b64 : bool) (src : list Z) : list Z := if b64 then b64_enc src else src.
+Definition out_op (b64 : bool) : Z := if b64 then OP_TEXT else OP_BIN.
+Definition enc_bytes (b64 : bool) (src : list Z) : list Z :=
+  let P := out_payload b64 src in
+  Z.lor 128 (Z.land (out_op b64) 15) ::
+  (if zlen P <=? 125 then [zlen P mod 256] else 126 :: be_bytes 2 (zlen P mod 65536)) ++ P.
+Definition out_frame (b64 : bool) (src : list Z) : frame := mkFrame true (out_op b64) false mask0 (out_payload b64 src).
+
+Lemma out_payload_len : forall b64 src, 1 <= zlen src <= 32768 -> 0 < zlen (out_payload b64 src) < 65536.
+Proof.
+  intros b64 src H. unfold out_payload. destruct b64; [|lia]. rewrite enc_length. Z.div_mod_to_equations. lia.
+Qed.
+
+Lemma ws_encode_form : forall b64 src, bytes_ok src = true -> 1 <= zlen src <= 32768 ->
+  snd (ws_encode b64 src) = enc_bytes b64 src.
+Proof.
+  intros b64 src Hb Hl. pose proof (out_payload_len b64 src Hl) as HP.
+  assert (zlen (out_payload b64 src) <= 43692) as HP2.
+  { unfold out_payload. destruct b64; [|lia]. rewrite enc_length. Z.div_mod_to_equations. lia. }
+  unfold ws_encode, enc_bytes.
+  destruct (zlen src =? 0) eqn:E0; [lia|].
+  assert ((zlen src >? ws_update_buf_size) = false) as E1 by (change ws_update_buf_size with 32768; lia). rewrite E1.
+  assert ((if b64 then b64len (zlen src) else zlen src) = zlen (out_payload b64 src)) as EP
+    by (unfold out_payload; destruct b64; [apply b64len_enc|reflexivity]).
+  rewrite EP. fold (out_op b64). set (P := out_payload b64 src) in *.
+  destruct (zlen P <=? 65536) eqn:E2; [|lia].
+  destruct (zlen P <=? 125) eqn:E3.
+  - destruct b64.
+    + rewrite b64_ntop_enc; [|assumption|unfold P, out_payload in *; change ws_encbuf_size with 43706; lia]. reflexivity.
+    + reflexivity.
+  - destruct b64.
+    + rewrite b64_ntop_enc; [|assumption|unfold P, out_payload in *; change ws_encbuf_size with 43706; lia]. reflexivity.
+    + reflexivity.
+Qed.
+
+Lemma parse_frames_enc : forall b64 chs fuel rest_ok,
+  Forall (fun ch => bytes_ok ch = true /\ 1 <= zlen ch <= 32768) chs -> (length chs <= fuel)%nat -> rest_ok = tt ->
+  parse_frames fuel (concat (map (enc_bytes b64) chs)) = Some (map (out_frame b64) chs).
+Proof.
+  intros b64 chs. induction chs as [|ch chs IH]; intros fuel u Hall Hf _.
+  - cbn. destruct fuel; reflexivity.
+  - inversion Hall as [|? ? [Hb Hl] Hall']. subst. cbn [length] in Hf. destruct fuel as [|k]; [lia|].
+    cbn [map concat]. unfold enc_bytes at 1. cbn [app parse_frames].
+    assert (out_op b64 = 1 \/ out_op b64 = 2) as Hop by (destruct b64; [left|right]; reflexivity).
+    rewrite <- app_assoc.
+    rewrite (parse_unmasked_rest (out_op b64) (out_payload b64 ch) _ Hop (out_payload_len b64 ch Hl)).
+    rewrite (IH k tt Hall' ltac:(lia) eq_refl). reflexivity.
+Qed.
+
+Lemma chunks_bytes_ok : forall fuel l, bytes_ok l = true -> Forall (fun ch => bytes_ok ch = true) (chunks fuel l).
+Proof.
+  induction fuel; intros l H; cbn [chunks]; [constructor; [assumption|constructor]|].
+  destruct (zlen l >? ws_update_buf_size); [|constructor; [assumption|constructor]].
+  constructor; [apply bytes_ok_firstn; assumption|apply IHfuel, bytes_ok_skipn; assumption].
+Qed.
+
+Theorem write_parses_back : forall b64 l, bytes_ok l = true -> l <> [] ->
+  exists out, ws_write b64 l = Some out /\
+    parse_stream out = Some (map (out_frame b64) (chunks (length l) l)) /\
+    concat (chunks (length l) l) = l /\
+    Forall (fun ch => 1 <= zlen ch <= ws_update_buf_size) (chunks (length l) l).
+Proof.
+  intros b64 l Hb Hne. destruct (ws_write_chunks b64 l Hb) as (Hw & Hc & Hsz).
+  set (chs := chunks (length l) l) in *.
+  assert (Forall (fun ch => bytes_ok ch = true /\ 1 <= zlen ch <= 32768) chs) as Hall.
+  { pose proof (chunks_bytes_ok (length l) l Hb) as Hbo. fold chs in Hbo.
+    rewrite Forall_forall in *. intros ch Hin. specialize (Hsz ch Hin). specialize (Hbo ch Hin).
+    change ws_update_buf_size with 32768 in Hsz. destruct Hsz as [H1 H2]. specialize (H2 Hne). tauto. }
+  assert (map (fun ch => snd (ws_encode b64 ch)) chs = map (enc_bytes b64) chs) as Em.
+  { apply map_ext_in. intros ch Hin. rewrite Forall_forall in Hall. destruct (Hall ch Hin) as [H1 H2]. apply ws_encode_form; assumption. }
+  exists (concat (map (enc_bytes b64) chs)). rewrite Hw, Em. split; [reflexivity|]. split; [|split; [assumption|]].
+  - unfold parse_stream. apply (parse_frames_enc b64 chs _ tt Hall); [|reflexivity].
+    (* every encoded chunk has at least one byte *)
+    clear. induction chs as [|ch chs IH]; [cbn; lia|]. cbn [map concat length]. rewrite app_length. unfold enc_bytes at 1. cbn [length]. lia.
+  - rewrite Forall_forall in *. intros ch Hin. destruct (Hall ch Hin) as [_ H]. change ws_update_buf_size with 32768. lia.
 Qed.
